@@ -15,10 +15,6 @@ from ..utils.transforms import _get_inv_param_transform, inv_sigmoid, inv_softpl
 softplus = torch.nn.Softplus()
 
 
-# the inverses the constructors use by default, with the transform each of them inverts
-_DEFAULT_TRANSFORMS = {inv_sigmoid: sigmoid, inv_softplus: softplus}
-
-
 class Interval(Module):
     def __init__(self, lower_bound, upper_bound, transform=sigmoid, inv_transform=inv_sigmoid, initial_value=None):
         """
@@ -55,12 +51,12 @@ class Interval(Module):
 
         if transform is not None and inv_transform is None:
             self._inv_transform = _get_inv_param_transform(transform)
-        elif transform is not None and inv_transform in _DEFAULT_TRANSFORMS:
-            # the default inverses belong to the default transforms: another transform gets its own inverse
-            if transform in TRANSFORM_REGISTRY:
-                self._inv_transform = TRANSFORM_REGISTRY[transform]
-            elif transform is not _DEFAULT_TRANSFORMS[inv_transform]:
-                raise RuntimeError("Must specify inv_transform for custom transforms")
+        elif transform is not None and any(inv_transform is default_inv for default_inv in (inv_sigmoid, inv_softplus)):
+            # the default inverses belong to the default transforms: a registered transform gets its own inverse
+            # (an unknown transform keeps what it was given: it may be another spelling of the default one)
+            for registered_transform, registered_inverse in TRANSFORM_REGISTRY.items():
+                if transform is registered_transform:
+                    self._inv_transform = registered_inverse
 
         if initial_value is not None:
             self._initial_value = self.inverse_transform(torch.as_tensor(initial_value))
